@@ -949,7 +949,8 @@ func writeEvidence(o CheckOpts, prog *Program, cs *Contracts, results []*FuncRes
 	}
 	var tb []string
 	tb = append(tb, "gtverify: own VC generator over go/ssa (x/tools v0.29.0) of /repo's working tree; machine integers as bit-vectors; Burstall-Bornat heap",
-		"SMT solvers: z3 5.1.0 (z3-new), cvc5 1.0, z3 4.8.12; unsat from any one discharges (quick), all answering solvers must agree (thorough)",
+		"SMT solvers: z3 5.1.0 (z3-new; also with the monotone-interference axioms restated quantifier-free with the array 'map' combinator, and, for unsat answers only, without array extensionality), cvc5 1.0, z3 4.8.12; unsat from any one discharges (quick), all answering solvers must agree (thorough); budgets are CPU seconds per query (20 quick, 60 thorough; an inconclusive obligation is retried once with four times the budget), so verdicts do not depend on machine load",
+		"string lengths are non-negative and below 2^40 (axiom on the abstract string model)",
 		"Go memory model / sync, sync/atomic and channel semantics as encoded in internal/engine (monitor rule: acquire = havoc guarded fields + assume invariant)")
 	for _, k := range sortedKeys(AssumedContracts) {
 		tb = append(tb, "assumed contract: "+k+" — "+AssumedContracts[k])
